@@ -132,15 +132,15 @@ Theorem C12_block_bytes_name_signers : forall b1 b2,
 Proof. exact block_bytes_name_signers. Qed.
 Print Assumptions C12_block_bytes_name_signers.
 
-(* ... and, under the explicit framing premise that the two batches have the same length (batch and
-   certificate are not framed against each other in Block.ToBytes), every component *)
+(* ... and every component: after fixes/C12-block-bytes-frame-batch.patch the batch is preceded by its length,
+   so batch and certificate cannot trade bytes (batches are shorter than 2^32 bytes: Go's uint32(len)) *)
 Theorem C12_block_bytes_name_everything : forall b1 b2,
   length (b_parent b1) = 32%nat -> length (b_parent b2) = 32%nat ->
   b_proposer b1 < 2^32 -> b_proposer b2 < 2^32 -> b_view b1 < 2^64 -> b_view b2 < 2^64 ->
   length (qc_hash (b_cert b1)) = 32%nat -> length (qc_hash (b_cert b2)) = 32%nat ->
   qc_view (b_cert b1) < 2^64 -> qc_view (b_cert b2) < 2^64 ->
   ids_ok (qc_sig (b_cert b1)) -> ids_ok (qc_sig (b_cert b2)) ->
-  length (b_batch b1) = length (b_batch b2) ->
+  N.of_nat (length (b_batch b1)) < 2^32 -> N.of_nat (length (b_batch b2)) < 2^32 ->
   block_bytes b1 = block_bytes b2 ->
   b_parent b1 = b_parent b2 /\ b_proposer b1 = b_proposer b2 /\ b_view b1 = b_view b2 /\ b_batch b1 = b_batch b2
   /\ qc_view (b_cert b1) = qc_view (b_cert b2) /\ qc_hash (b_cert b1) = qc_hash (b_cert b2)
@@ -170,6 +170,16 @@ Theorem C12_old_block_bytes_name_signers_refuted :
     block_bytes b1 <> block_bytes b2.
 Proof. exact old_block_bytes_name_signers_refuted. Qed.
 Print Assumptions C12_old_block_bytes_name_signers_refuted.
+
+(* nor did the encoding without the batch length prefix name one batch: a well-formed block without
+   commands and one with a command, with different certificates, and the same unframed bytes *)
+Theorem C12_unframed_block_bytes_refuted :
+  exists b1 b2, wf_block (fun _ => None) b1 = true /\ wf_block (fun _ => None) b2 = true /\
+    block_bytes_unframed b1 = block_bytes_unframed b2 /\
+    b_batch b1 <> b_batch b2 /\ qc_view (b_cert b1) <> qc_view (b_cert b2) /\
+    block_bytes b1 <> block_bytes b2.
+Proof. exact unframed_block_bytes_refuted. Qed.
+Print Assumptions C12_unframed_block_bytes_refuted.
 
 (* ---- non-vacuity: concrete well-formed objects of each scheme, and the hypotheses are not idle ---- *)
 Definition ex_decode (s : bytes) : option bytes := if bytes_eqb s [192; 0; 1] then Some s else None.
